@@ -228,6 +228,20 @@ let rec handle (p : string) : string =
      | Some v -> "pure=1;s=" ^ hx (stream_seq (nat_of_int (ios w)) (n_of_int (ios fill)) (adj = "1") (base = "16")
                                       (n_of_string n) v) ^ cls)
   (* printers are pure, hence re-entrant: no conversion may go wrong when several threads print at once *)
+  (* printers on long-lived objects: the text is a function of the current value only *)
+  | ["reprint"; ty; mode; v1; v2] ->
+    let text v = match ty with
+      | "uid" -> let q, r = N.div_eucl (n_of_string v) (two_pow 32) in uid_to_string (q, r)
+      | "mac" -> mac_to_string (txt v)
+      | "cid" -> cid_to_string uuid_unparse (txt v)
+      | "dmx" -> dmx_to_string (txt v)
+      | "ip4" -> ipv4_to_string inet_ntop4 (txt v)
+      | "ip6" -> ipv6_to_text (txt v)
+      | _ -> (match String.split_on_char '/' v with
+              | [h; port] -> sockaddr_to_string inet_ntop4 (txt h, n_of_string port)
+              | _ -> []) in
+    Printf.sprintf "s1=%s;s2=%s;o=1;eq=1;class=reprint-%s:mode%s%s" (hx (text v1)) (hx (text v2)) ty mode
+      (if v1 = v2 then "-same" else "")
   | ["thr"; t; n; _] -> Printf.sprintf "mis=0;cnt=%d;class=thr%s" (11 * ios t * ios n) t
   | ["thrf"; t; n; _; r] -> Printf.sprintf "mis=0;dead=0;cnt=%d;class=thrf%s" (11 * ios t * ios n * ios r) t
   | ["split"; d; h] ->
